@@ -3,6 +3,7 @@
 from __future__ import annotations
 
 import ast
+import re
 
 from ..cfg import CFG, typestate, witness, calls_at
 from ..loader import AnalysisError, Repo, body_nodoc, dotted, norm, walk_no_nested, enclosing, qualname, head, strip_cast
@@ -52,7 +53,8 @@ def analyse(repo, rep, mod, fn, cat_of_const, names, ALL_CATS):
         if n.kind == "with_enter" and any(suppressing(i) for i in n.ast.items):
             # `with attempt(...) as ctx` binds a fresh context: an earlier failure is no longer
             # visible through ctx.success
-            return [((closed, cat, excused, False, pinned, last), None)]
+            names = {norm(i.optional_vars) for i in n.ast.items if suppressing(i) and i.optional_vars is not None}
+            return [((closed, cat, excused, failed - names, pinned, last), None)]
         if n in loops:
             if closed:
                 fails.append(("after-final", n, st, "the result loop continues after a non-Pending (final) response was sent for this request"))
@@ -95,24 +97,27 @@ def analyse(repo, rep, mod, fn, cat_of_const, names, ALL_CATS):
             if txt in ("rsp.Status == 45057", "45057 == rsp.Status"):
                 reopened = closed and last == frozenset({"STATUS_WARNING"})
                 return [((False if reopened else closed, cat, excused, failed, True, last), {"true"}), ((closed, cat, excused, failed, pinned, last), {"false", "exc"})]
-            if "ctx.success" in txt or "is_established" in txt:
+            if ".success" in txt or "is_established" in txt:
                 atoms = [norm(v) for v in t.values] if isinstance(t, ast.BoolOp) and isinstance(t.op, ast.Or) else [txt]
-                known = {"not ctx.success", "not self.assoc.is_established", "not ctx.assoc.is_established"}
-                if all(a in known for a in atoms):
+                succ_names = [m_.group(1) for m_ in (re.fullmatch(r"not (\w+)\.success", a) for a in atoms) if m_]
+                est = [a for a in atoms if re.fullmatch(r"not (self|\w+)\.assoc\.is_established", a)]
+                if len(succ_names) + len(est) == len(atoms):
                     outs = []
-                    has_succ = "not ctx.success" in atoms
-                    has_est = any("is_established" in a for a in atoms)
+                    # the test asks about the attempt bound to *that* name: it sees a failure only of that one
+                    has_succ = bool(succ_names)
+                    seen_failed = any(nm in failed for nm in succ_names)
+                    has_est = bool(est)
                     # true edge
-                    if has_succ and failed:
+                    if has_succ and seen_failed:
                         outs.append(((closed, cat, excused, failed, pinned, last), {"true"}))
-                    if has_est and not (has_succ and failed):
+                    if has_est and not (has_succ and seen_failed):
                         outs.append(((closed, cat, True, failed, pinned, last), {"true"}))
-                    # false edge: attempt did not fail (if tested) and still established
-                    if not (has_succ and failed):
+                    # false edge: the tested attempt did not fail and the association is still established
+                    if not (has_succ and seen_failed):
                         outs.append(((closed, cat, excused, failed, pinned, last), {"false"}))
                     return outs
-                if "ctx.success" in txt:
-                    raise AnalysisError(f"{fq}: unmodelled test on ctx.success: {txt}")
+                if ".success" in txt:
+                    raise AnalysisError(f"{fq}: unmodelled test on an attempt's success flag: {txt}")
             cmp = t
             if isinstance(t, ast.BoolOp) and isinstance(t.op, ast.And) and isinstance(t.values[0], ast.Compare) and norm(t.values[0].left) == "status[0]":
                 cmp = t.values[0]  # `status[0] == X and <more>`: the true edge implies the comparison
@@ -151,10 +156,13 @@ def analyse(repo, rep, mod, fn, cat_of_const, names, ALL_CATS):
             if non_exc:
                 out.append((s2, non_exc))
         closed, cat, excused, failed, pinned, last = st
-        out.append(((True, None, excused, True, False, "attempt"), {"exc"}))
+        # which attempt block swallows the exception: the failure is visible through that block's name only
+        wx = [m for m, l in n.succ if l == "exc" and m.kind == "with_exit"]
+        names = {norm(i.optional_vars) for m in wx for i in m.ast.items if suppressing(i) and i.optional_vars is not None}
+        out.append(((True, None, excused, failed | frozenset(names), False, "attempt"), {"exc"}))
         return out
 
-    ins, pred = typestate(cfg, (False, None, False, False, False, None), transfer2)
+    ins, pred = typestate(cfg, (False, None, False, frozenset(), False, None), transfer2)
     for st in ins.get(cfg.exit.id, ()):
         closed, cat, excused, failed, pinned, last = st
         if not closed and not excused:
